@@ -117,7 +117,7 @@ def run_case(case):
     attempts = case["attempts"]
     ext = case.get("external", False)
     ping = case.get("ping")
-    sched = simkit.Sched(choices=case.get("choices", []), horizon=case.get("run_for", 60.0) + 150.0, repo=REPO, max_steps=2_000_000)
+    sched = simkit.Sched(choices=case.get("choices", []), preempt_at=case.get("preempt_at"), horizon=case.get("run_for", 60.0) + 150.0, repo=REPO, max_steps=2_000_000)
     net = simkit.SimNet(sched)
     for at, delta in case.get("clock_steps") or []:
         # the system clock is set while the run is in progress (NTP step, operator): waiting times are durations, not dates
@@ -387,7 +387,7 @@ def _cls(obs, case, natt):
     nt = natt >= 2 and fails >= 1 and succ >= 1
     obs.cls = ("external" if case.get("external") else "builtin", f"attempts:{min(natt, 6)}", f"stop:{'app-close' if case.get('close_at') is not None else kinds[-1]}",
                f"on_reconnect:{int(case.get('on_reconnect', True))}", f"ping:{int(bool(case.get('ping')))}", f"tls:{int(bool(case.get('secure')))}", f"wall-clock-stepped:{int(bool(case.get('clock_steps')))}") + tuple(sorted({f"kind:{k}" for k in kinds}))
-    obs.nt = repr((case["attempts"], case["interval"], case.get("external"), case.get("close_at"), case.get("on_reconnect", True), case.get("ping"), case.get("choices"), case.get("secure"), case.get("via_global"), case.get("clock_steps"))) if nt else None
+    obs.nt = repr((case["attempts"], case["interval"], case.get("external"), case.get("close_at"), case.get("on_reconnect", True), case.get("ping"), case.get("choices"), case.get("secure"), case.get("via_global"), case.get("clock_steps"), sorted((case.get("preempt_at") or {}).items()))) if nt else None
     return obs
 
 
@@ -456,10 +456,18 @@ def cases(draw):
             att.append({"kind": "stay", "hs_delay": 0.0})
     if ping or c.get("close_at") is not None:
         c["choices"] = draw(st.lists(st.integers(0, 2), max_size=20))
+        if not ext and draw(st.integers(0, 2)) == 0:
+            # a (possibly held) preemption where the closing thread, the ping thread and the reconnecting loop meet
+            c["preempt_at"] = {site: {str(draw(st.integers(1, 40))): draw(st.sampled_from([1, 2, [1, 6], [1, 40], [2, 40]]))}
+                               for site in draw(st.lists(st.sampled_from(RACE_SITES), min_size=1, max_size=2, unique=True))}
     if not ping and draw(st.integers(0, 2)) == 0:
         # (keepalive judges elapsed time by the wall clock; C16 is about that. Here: the waits between attempts)
         c["clock_steps"] = draw(st.lists(st.tuples(st.sampled_from([0.1, 0.6, 1.2, 2.4, 5.5, 12.0]), st.sampled_from([-3600.0, -86400.0, -2.0, 3600.0, 0.75])).map(list), min_size=1, max_size=3))
     return c
+
+
+RACE_SITES = ["_app.py:close", "_app.py:setSock", "_app.py:teardown", "_app.py:read", "_app.py:handleDisconnect", "_app.py:_send_ping", "_app.py:_stop_ping_thread",
+              "_app.py:_start_ping_thread", "_core.py:close", "_core.py:shutdown", "_core.py:connect", "_dispatcher.py:reconnect", "_dispatcher.py:read"]
 
 
 def long_cases():
